@@ -10,7 +10,7 @@ import numpy
 from hypothesis import strategies as st
 
 from .. import unit as U
-from ..core import Failure, drive
+from ..core import Failure, drive, drive_enum
 from ..gen import models as M
 from ..gen import render as RD
 
@@ -376,6 +376,103 @@ def check_model(model, rec):
     return []
 
 
+# ----------------------------------------------------------------------------- built-in readers built through the API
+
+NC_TYPES = {"Float": "float64", "Integer": "int", "Positive Float": "float64", "Positive Integer": "uint", "Fuzzy": "float64"}
+CSV_TYPES = {"Float": "float", "Integer": "int"}
+DATA_FAMILIES = {
+    "small_nonnegative": [0.0, 1.0, 2.0, 7.0],
+    "with_negatives": [-2.0, 0.0, 3.0, -1.0],
+    "fuzzy_range": [-1.0, -0.5, 0.25, 1.0],
+    "fuzzy_pad": [-1.005, 0.2, 1.008, 0.0],
+    "fractions": [0.4, 2.5, 7.5, 1.5],
+    "far_out": [-30.0, 0.5, 12.0, 1.0],
+}
+
+
+def type_object(name):
+    return {"float64": numpy.float64, "int": int, "uint": numpy.uint, "float": float}[name]
+
+
+def reader_cases():
+    for lib, types in (("netcdf", NC_TYPES), ("csv", CSV_TYPES)):
+        specs = [None] + [("name", n) for n in sorted(types)] + [("object", o) for o in sorted(set(types.values()))]
+        for spec in specs:
+            for fam in sorted(DATA_FAMILIES):
+                for missing in (None, 0, 2.5 if lib == "csv" else 2):
+                    for masked in (False, True):
+                        if lib == "csv" and masked:
+                            continue
+                        yield {"lib": lib, "dtype": spec, "data": fam, "missing": missing, "file_mask": masked, "ref": "object" if masked or missing else "name"}
+
+
+def outcome_of(prog, names):
+    try:
+        prog.run()
+    except Exception as exc:
+        from .. import arr as A
+
+        return ("error", A.exc_name(exc))
+    return ("ok", [prog.commands[n].result for n in names])
+
+
+def check_reader(case, rec):
+    """A program that reads a file with the built-in reader, built through add_command (DataType as a name or as the
+    type object itself), and the program loaded from its serialisation behave alike: both fail with the same error class
+    or both give equal results."""
+    from mpilot.program import EEMS_CSV_LIBRARIES, EEMS_NETCDF_LIBRARIES, Program
+
+    tmp = tempfile.mkdtemp(prefix="vcheck-c15-")
+    try:
+        data = DATA_FAMILIES[case["data"]]
+        if case["lib"] == "netcdf":
+            from . import c18
+
+            var = {"name": "v", "dtype": "f8", "data": data, "mask": [0, 1, 0, 0] if case["file_mask"] else None, "fill": -9999.0 if case["file_mask"] else None}
+            c18.make_template(os.path.join(tmp, "in.nc"), [{"name": "x", "size": 4, "values": [0, 1, 2, 3]}], [var])
+            libs, fname, mkey = EEMS_NETCDF_LIBRARIES, "in.nc", "MissingValue"
+        else:
+            with open(os.path.join(tmp, "in.csv"), "w") as f:
+                f.write("v\n" + "\n".join(repr(x) for x in data) + "\n")
+            libs, fname, mkey = EEMS_CSV_LIBRARIES, "in.csv", "MissingVal"
+        p1 = Program(libraries=libs, working_dir=tmp)
+        args = {"InFileName": fname, "InFieldName": "v"}
+        if case["dtype"] is not None:
+            how, what = case["dtype"]
+            args["DataType"] = what if how == "name" else type_object(what)
+        if case["missing"] is not None:
+            args[mkey] = case["missing"]
+        sig = "reader|%s|DataType:%s" % (case["lib"], "omitted" if case["dtype"] is None else "%s:%s" % tuple(case["dtype"]))
+        rec.label("reader:%s:%s" % (case["lib"], "omitted" if case["dtype"] is None else case["dtype"][0]))
+        try:
+            p1.add_command(p1.find_command_class("EEMSRead"), "R", args)
+            p1.add_command(p1.find_command_class("Copy"), "C", {"InFieldName": p1.commands["R"] if case["ref"] == "object" else "R"})
+        except Exception as exc:
+            return [Failure(sig + "|add_command_raises:%s" % type(exc).__name__, repr(exc))]
+        if case["dtype"] is not None and case["dtype"][0] == "object":
+            rec.nontrivial_case(case)
+        try:
+            text = p1.to_string()
+            p2 = Program.from_source(text, libraries=libs, working_dir=tmp)
+        except Exception as exc:
+            return [Failure(sig + "|reload_raises:%s" % type(exc).__name__, "%r" % (exc,))]
+        diff = compare_programs(p1, p2)
+        if diff:
+            return [Failure(sig + "|%s" % diff[0], "%r\n%s" % (diff, text))]
+        o1, o2 = outcome_of(p1, ["R", "C"]), outcome_of(p2, ["R", "C"])
+        rec.label("reader_outcome:" + (o1[0] if o1[0] == "ok" else o1[1]))
+        if o1[0] != o2[0] or (o1[0] == "error" and o1[1] != o2[1]):
+            return [Failure(sig + "|outcomes_differ", "built program: %s, loaded program: %s; data %r\n%s" % (
+                o1[1] if o1[0] == "error" else "ok", o2[1] if o2[0] == "error" else "ok", data, text))]
+        if o1[0] == "ok":
+            for a, b, nm in zip(o1[1], o2[1], ("R", "C")):
+                if not (U.result_equal(a, b, 0.0) and numpy.ma.getdata(a).dtype == numpy.ma.getdata(b).dtype):
+                    return [Failure(sig + "|results_differ", "%s: built %r, loaded %r\n%s" % (nm, a, b, text))]
+        return []
+    finally:
+        shutil.rmtree(tmp, ignore_errors=True)
+
+
 # ----------------------------------------------------------------------------- strategies
 
 HOSTILE_TEXT = st.text(alphabet=st.sampled_from(list("abXY01 _-./") + list("\"'\\#:,=()[]\n\t") + list("é中€😀") + ["\x0b", "\x0c", "\x1c", "\x1d", "\x1e", "\x85", "\u2028", "\u2029", "\x7f"]), max_size=10)
@@ -443,9 +540,10 @@ def kinds_cases(draw):
     return {"build": "api" if api else "source", "commands": cmds}
 
 
-PARTS = {"kinds": check_kinds, "model": check_model}
+PARTS = {"kinds": check_kinds, "model": check_model, "reader": check_reader}
 
 
 def run_shard(ctx, rec):
+    drive_enum(ctx, rec, "reader", reader_cases(), check_reader, exhaustive=True)
     drive(ctx, rec, "kinds", kinds_cases(), check_kinds, ctx.n(3000, 100000), max_novel=8)
     drive(ctx, rec, "model", M.typed_models(max_nodes=6), check_model, ctx.n(500, 10000))
